@@ -3,12 +3,14 @@ package work
 import (
 	"fmt"
 	"math"
+	"reflect"
 	"sort"
 	"strings"
 
 	"google.golang.org/protobuf/encoding/protojson"
 	"google.golang.org/protobuf/encoding/prototext"
 	"google.golang.org/protobuf/encoding/protowire"
+	"google.golang.org/protobuf/internal/strs"
 	"google.golang.org/protobuf/proto"
 	"google.golang.org/protobuf/reflect/protoreflect"
 	"google.golang.org/protobuf/reflect/protoregistry"
@@ -45,7 +47,11 @@ func (w c28) ID() string { return w.id }
 var c28Types = []string{gen.TOpen2, gen.TOpen3, gen.TEditions, gen.THybrid, gen.TOpaque, gen.TOpaque, gen.TExt2, "goproto.proto.test.TestAllTypes.NestedMessage", "opaque.goproto.proto.testeditions.TestAllExtensions", gen.TManyOpaque,
 	// editions files with file-level and field-level field_presence settings (IMPLICIT file default with EXPLICIT
 	// overrides; LEGACY_REQUIRED scalars of every kind)
-	"goproto.proto.test.TestAllTypesProto3Editions", "goproto.proto.test.TestAllTypesProto2Editions", c28Required}
+	"goproto.proto.test.TestAllTypesProto3Editions", "goproto.proto.test.TestAllTypesProto2Editions", c28Required,
+	// proto3 with `optional` fields (synthetic oneofs) in the hybrid and opaque flavors
+	"opaque.goproto.proto.test3.TestAllTypes", "opaque.goproto.proto.test3.TestAllTypes", "hybrid.goproto.proto.test3.TestAllTypes",
+	// opaque fixture with presence-tracked fields declared after oneofs (pbsim/fx)
+	"pbsim.fx.AfterOneof", "pbsim.fx.AfterOneof"}
 
 // c28Required stands for one of the single-field messages of internal/testprotos/required (all flavors), chosen by the scenario.
 const c28Required = "required/*"
@@ -53,10 +59,10 @@ const c28Required = "required/*"
 var c28RequiredKinds = []string{"Int32", "Int64", "Uint32", "Uint64", "Sint32", "Sint64", "Fixed32", "Fixed64", "Float", "Double", "Bool", "String", "Bytes", "Message", "Group"}
 
 var c28MutAll = []string{"set", "set", "set", "set-zero", "clear", "clear", "set-msg-empty", "mutable-msg", "list-append", "list-append", "list-set", "list-truncate", "map-set", "map-set", "map-clear",
-	"oneof-set", "oneof-set", "oneof-msg-mutable", "set-unknown", "ext-set", "ext-clear", "merge", "decode-oneof-multi", "roundtrip-bin", "roundtrip-json", "roundtrip-text", "readonly-write", "check-encoded", "json-two-members", "text-two-members", "presence-sweep", "emptied-view", "emptied-view"}
-var c28MutC11 = []string{"set", "set", "set-zero", "set-zero", "set-zero", "clear", "clear", "presence-sweep", "emptied-view", "set-msg-empty", "mutable-msg", "list-append", "list-truncate", "map-set", "map-clear", "oneof-set", "ext-set", "ext-clear",
+	"oneof-set", "oneof-set", "oneof-msg-mutable", "set-unknown", "ext-set", "ext-clear", "merge", "decode-oneof-multi", "roundtrip-bin", "roundtrip-json", "roundtrip-text", "readonly-write", "check-encoded", "json-two-members", "text-two-members", "presence-sweep", "emptied-view", "emptied-view", "gen-set", "gen-set", "gen-clear"}
+var c28MutC11 = []string{"set", "set", "set-zero", "set-zero", "set-zero", "clear", "clear", "presence-sweep", "emptied-view", "gen-set", "gen-set", "gen-clear", "set-msg-empty", "mutable-msg", "list-append", "list-truncate", "map-set", "map-clear", "oneof-set", "ext-set", "ext-clear",
 	"roundtrip-bin", "roundtrip-bin", "roundtrip-json", "roundtrip-text", "check-encoded", "check-encoded", "merge"}
-var c28MutC12 = []string{"oneof-set", "oneof-set", "oneof-set", "oneof-set", "oneof-msg-mutable", "oneof-msg-mutable", "clear", "set", "merge", "merge", "decode-oneof-multi", "decode-oneof-multi", "decode-oneof-multi",
+var c28MutC12 = []string{"gen-set", "gen-set", "gen-clear", "oneof-set", "oneof-set", "oneof-set", "oneof-set", "oneof-msg-mutable", "oneof-msg-mutable", "clear", "set", "merge", "merge", "decode-oneof-multi", "decode-oneof-multi", "decode-oneof-multi",
 	"roundtrip-bin", "roundtrip-json", "roundtrip-text", "json-two-members", "json-two-members", "text-two-members", "text-two-members", "set-msg-empty"}
 var c28Reads = []string{"render", "render", "range", "has", "get", "which", "unknown", "len", "descriptor"}
 
@@ -516,6 +522,78 @@ func (p *c28Pair) mutate(op *scn.Op, newMsg func() proto.Message) string {
 		}
 		am.Clear(fd)
 		m.Clear(fd)
+	case "gen-set", "gen-clear":
+		// the generated accessors of the hybrid and opaque APIs (SetX / ClearX / HasX / GetX), found by name
+		// through Go reflection; the open struct API has getters only and the operation does nothing there
+		fd := pickFD(md, op.N, isSingularScalar)
+		if fd == nil || !m.IsValid() {
+			return ""
+		}
+		gm := reflect.ValueOf(m.Interface())
+		name := strs.GoCamelCase(string(fd.Name()))
+		has := gm.MethodByName("Has" + name)
+		if op.Op == "gen-clear" {
+			clr := gm.MethodByName("Clear" + name)
+			if !clr.IsValid() || clr.Type().NumIn() != 0 {
+				return ""
+			}
+			clr.Call(nil)
+			am.Clear(fd)
+			if has.IsValid() && has.Type().NumIn() == 0 && has.Call(nil)[0].Bool() {
+				return fmt.Sprintf("has: generated Has%s is true right after Clear%s", name, name)
+			}
+			return ""
+		}
+		set := gm.MethodByName("Set" + name)
+		if !set.IsValid() || set.Type().NumIn() != 1 {
+			return ""
+		}
+		v := c28Value(r, fd, op.M%3 == 0)
+		var arg reflect.Value
+		switch t := set.Type().In(0); t.Kind() {
+		case reflect.Int32, reflect.Int64:
+			arg = reflect.ValueOf(v.I).Convert(t)
+		case reflect.Uint32, reflect.Uint64:
+			arg = reflect.ValueOf(v.U).Convert(t)
+		case reflect.Float32, reflect.Float64:
+			arg = reflect.ValueOf(v.F).Convert(t)
+		case reflect.Bool:
+			arg = reflect.ValueOf(v.I != 0)
+		case reflect.String:
+			arg = reflect.ValueOf(v.S)
+		case reflect.Slice:
+			arg = reflect.ValueOf([]byte(v.S))
+		default:
+			return ""
+		}
+		set.Call([]reflect.Value{arg})
+		am.SetScalar(fd, v)
+		if has.IsValid() && has.Type().NumIn() == 0 && model.ExplicitPresence(fd) && !has.Call(nil)[0].Bool() {
+			return fmt.Sprintf("has: generated Has%s is false right after Set%s on a field with explicit presence", name, name)
+		}
+		if get := gm.MethodByName("Get" + name); get.IsValid() && get.Type().NumIn() == 0 {
+			got := get.Call(nil)[0]
+			same := true
+			switch got.Kind() {
+			case reflect.Int32, reflect.Int64:
+				same = got.Int() == v.I
+			case reflect.Uint32, reflect.Uint64:
+				same = got.Uint() == v.U
+			case reflect.Float32:
+				same = math.Float32bits(float32(got.Float())) == math.Float32bits(float32(v.F))
+			case reflect.Float64:
+				same = math.Float64bits(got.Float()) == math.Float64bits(v.F)
+			case reflect.Bool:
+				same = got.Bool() == (v.I != 0)
+			case reflect.String:
+				same = got.String() == v.S
+			case reflect.Slice:
+				same = string(got.Bytes()) == v.S
+			}
+			if !same {
+				return fmt.Sprintf("value: generated Get%s returns %v right after Set%s(%v)", name, got.Interface(), name, arg.Interface())
+			}
+		}
 	case "set-msg-empty":
 		fd := pickFD(md, op.N, isSingularMsg)
 		if fd == nil {
@@ -979,6 +1057,70 @@ func (p *c28Pair) mutate(op *scn.Op, newMsg func() proto.Message) string {
 				return fmt.Sprintf("%s: presence sweep, field %s set then cleared: %s", aspect, fd.Name(), det)
 			}
 		}
+		// the other way round: everything outside oneofs populated, then each field cleared on its own and
+		// populated again (a Clear must not touch a neighbour)
+		{
+			q := &c28Pair{am: model.NewMsg(rmd), m: newMsg()}
+			qm := q.m.ProtoReflect()
+			setOne := func(fd protoreflect.FieldDescriptor, i int) {
+				switch {
+				case fd.IsList():
+					if fd.Message() != nil {
+						l := qm.Mutable(fd).List()
+						l.Append(l.NewElement())
+						q.am.Append(fd, &model.AVal{M: model.NewMsg(fd.Message())})
+					} else {
+						v := scalarOfKind(r, fd)
+						qm.Mutable(fd).List().Append(v.ToValue())
+						q.am.Append(fd, &model.AVal{S: v})
+					}
+				case fd.IsMap():
+					if fd.MapValue().Message() != nil {
+						return
+					}
+					k, v := scalarOfKind(r, fd.MapKey()), scalarOfKind(r, fd.MapValue())
+					qm.Mutable(fd).Map().Set(k.ToValue().MapKey(), v.ToValue())
+					q.am.MapSet(fd, k, &model.AVal{S: v})
+				case fd.Message() != nil:
+					qm.Mutable(fd)
+					q.am.MutableMsg(fd)
+				default:
+					v := c28Value(r, fd, i%4 == 0)
+					qm.Set(fd, v.ToValue())
+					q.am.SetScalar(fd, v)
+				}
+			}
+			var all []protoreflect.FieldDescriptor
+			for i := 0; i < rmd.Fields().Len(); i++ {
+				if fd := rmd.Fields().Get(i); !fd.IsWeak() && fd.ContainingOneof() == nil {
+					all = append(all, fd)
+					setOne(fd, i)
+				}
+			}
+			if aspect, det := compareWithModel(q.am, qm); aspect != "" {
+				return fmt.Sprintf("%s: presence sweep, every field outside oneofs populated: %s", aspect, det)
+			}
+			// (a window of neighbouring fields is cleared in turn; presence of every field is looked at each time)
+			every := all
+			if len(all) > 24 {
+				lo := r.Intn(len(all) - 24)
+				all = all[lo : lo+24]
+			}
+			for i, fd := range all {
+				qm.Clear(fd)
+				q.am.Clear(fd)
+				// (presence of every field after every single Clear; the full comparison once at the end)
+				for _, o := range every {
+					if qm.Has(o) != q.am.Has(o) {
+						return fmt.Sprintf("has: presence sweep, every field populated, then only %s cleared: Has(%s) is %v", fd.Name(), o.Name(), qm.Has(o))
+					}
+				}
+				setOne(fd, i+1)
+			}
+			if aspect, det := compareWithModel(q.am, qm); aspect != "" {
+				return fmt.Sprintf("%s: presence sweep, every field cleared and populated again in turn: %s", aspect, det)
+			}
+		}
 	case "emptied-view":
 		// a list or map that was written to and emptied again is unpopulated: Has false, Range skips it,
 		// Get hands out an empty read-only view, and a write through that view panics and stays invisible
@@ -1312,6 +1454,36 @@ func (w c28) Run(s *scn.Scn, x *sim.Exec) {
 					if seen[n] != 1 {
 						return bad("range", fmt.Sprintf("Range visited field %d %d times", n, seen[n]))
 					}
+				}
+				// a callback that says stop is not called again: the message's Range and the Range of every
+				// populated map field
+				if len(wantPop) >= 2 {
+					stopAt, calls := 1+int(op.N)%(len(wantPop)-1), 0
+					root.Range(func(protoreflect.FieldDescriptor, protoreflect.Value) bool {
+						calls++
+						return calls < stopAt
+					})
+					if calls != stopAt {
+						return bad("range", fmt.Sprintf("Range called the callback %d times although it returned false at call %d (%d fields populated)", calls, stopAt, len(wantPop)))
+					}
+				}
+				var stopBad string
+				root.Range(func(fd protoreflect.FieldDescriptor, v protoreflect.Value) bool {
+					if fd.IsMap() && v.Map().Len() >= 2 {
+						stopAt, calls := 1+int(op.N)%(v.Map().Len()-1), 0
+						v.Map().Range(func(protoreflect.MapKey, protoreflect.Value) bool {
+							calls++
+							return calls < stopAt
+						})
+						if calls != stopAt {
+							stopBad = fmt.Sprintf("Map.Range of field %s called the callback %d times although it returned false at call %d (%d entries)", fd.Name(), calls, stopAt, v.Map().Len())
+							return false
+						}
+					}
+					return true
+				})
+				if stopBad != "" {
+					return bad("range", stopBad)
 				}
 				return sim.OpResult{Digest: uint64(len(seen))}
 			case "has", "get", "len":
